@@ -100,6 +100,8 @@ func GenSyntax(r *rand.Rand, o SynGenOpts) *Grammar {
 		g = s.splitRR()
 	case "longkeyed":
 		g = s.longKeyed()
+	case "lasubset":
+		g = s.laSubset()
 	case "wide":
 		g = s.wide()
 	case "cyclic":
@@ -250,6 +252,41 @@ func (s *synGen) lr1NotLalr() *Grammar {
 	a := &NTDef{Head: "A", Alts: []SAlt{alt(t[2])}}
 	b := &NTDef{Head: "B", Alts: []SAlt{alt(t[2])}}
 	return &Grammar{NTs: []*NTDef{top, a, b}}
+}
+
+// laSubset: the same nonterminal in two contexts, the look-aheads of one a strict subset of
+// the other's (a construction that merges states by their kernel cores when the look-aheads
+// of one contain the other's reports errors late and expects too much in the narrow context).
+func (s *synGen) laSubset() *Grammar {
+	s.pickTerminals(6)
+	t := s.terms
+	wide := []SAlt{alt(nt("X"), t[0]), alt(nt("X"), t[1])}
+	narrow := alt(t[2], nt("X"), t[0])
+	if s.r.Intn(3) == 0 {
+		wide = append(wide, alt(nt("X"), t[4]))
+	}
+	top := &NTDef{Head: "S"}
+	if s.r.Intn(2) == 0 {
+		top.Alts = append(append([]SAlt{}, wide...), narrow)
+	} else {
+		top.Alts = append([]SAlt{narrow}, wide...)
+	}
+	x := &NTDef{Head: "X", Alts: []SAlt{alt(t[3])}}
+	switch s.r.Intn(3) {
+	case 0:
+		x.Alts = append(x.Alts, alt(t[3], t[5]))
+	case 1:
+		x.Alts = []SAlt{alt(t[3], nt("Y"))}
+	}
+	g := &Grammar{NTs: []*NTDef{top, x}}
+	for _, a := range x.Alts {
+		for _, sy := range a.Body {
+			if sy.Kind == SNT && sy.Name == "Y" {
+				g.NTs = append(g.NTs, &NTDef{Head: "Y", Alts: []SAlt{alt(t[5]), alt(t[5], t[5])}})
+			}
+		}
+	}
+	return g
 }
 
 func (s *synGen) nullablePrefix() *Grammar {
